@@ -16,10 +16,12 @@ import numpy
 PROPERTY = "C11"
 LEVEL = "exploration"
 NEED_EXT = True
-REQUIRED = ["shadow.exponents", "numeric.poly", "numeric.poly-slow", "names", "n_output_features"]
+REQUIRED = ["shadow.exponents", "numeric.poly", "numeric.poly-slow", "names", "n_output_features",
+            "history.steps"]
 EXHAUSTIVE = {"quick": True, "thorough": True}
 RULE = ("all (n_features, degree, interaction_only, include_bias) in the tier's box (quick 1-6 x 1-5, thorough "
-        "1-8 x 1-6), both kinds, 8 input classes each; non-trivial = degree >= 2 and n_features >= 2; "
+        "1-8 x 1-6), both kinds, 8 input classes each, plus histories of set_params/refit/transform on one "
+        "instance; non-trivial = degree >= 2 and n_features >= 2; "
         "distinct = distinct configuration")
 ASSUMPTIONS = ["dense ndarray input (the transformer reads X.dtype/X.shape)",
                "float comparison rtol 1e-12 (float32: 1e-5): products are associated in a different order",
@@ -33,6 +35,9 @@ def cases(tier, seed):
     for n, d, io, bias in itertools.product(nf, dg, (False, True), (False, True)):
         out.append({"gen": "cfg", "id": "n%d-d%d-io%d-b%d" % (n, d, io, bias), "n": n, "d": d,
                     "io": io, "bias": bias, "seed": seed})
+    for k in range(48 if tier == "quick" else 600):
+        out.append({"gen": "history", "id": "history-%d" % k, "sub": seed * 100003 + k,
+                    "max_n": max(nf), "max_d": max(dg)})
     return out
 
 
@@ -160,7 +165,61 @@ def inputs(rng, n):
     return out
 
 
+def run_history(case, ctx):
+    """One instance reused: set_params / fit on another width / transform twice / names, each step
+    compared with a fresh PolynomialFeatures (a refit must not remember the previous configuration)."""
+    from sklearn.preprocessing import PolynomialFeatures
+    from mlinsights.mlmodel import ExtendedFeatures
+    rng = numpy.random.RandomState(case["sub"] % (2 ** 31))
+    kind = ["poly", "poly-slow"][case["sub"] % 2]
+    m = ExtendedFeatures(kind=kind)
+    hist = []
+    for step in range(int(rng.randint(3, 7))):
+        n = int(rng.randint(1, case["max_n"] + 1))
+        d = int(rng.randint(1, min(case["max_d"], 4) + 1))
+        io, bias = bool(rng.rand() < 0.5), bool(rng.rand() < 0.5)
+        if rng.rand() < 0.8:
+            r = m.set_params(poly_degree=d, poly_interaction_only=io, poly_include_bias=bias)
+            if rng.rand() < 0.2:
+                kind = "poly" if kind == "poly-slow" else "poly-slow"
+                m.set_params(kind=kind)
+        else:
+            d, io, bias = m.poly_degree, m.poly_interaction_only, m.poly_include_bias
+        X = rng.randn(5, n)
+        X2 = rng.randn(3, n)
+        hist.append({"n_features": n, "degree": d, "interaction_only": io, "include_bias": bias, "kind": kind})
+        cfg = {"history": list(hist), "sub": case["sub"]}
+        ref = PolynomialFeatures(degree=d, interaction_only=io, include_bias=bias).fit(X)
+        try:
+            m.fit(X)
+            outs = [m.transform(X), m.transform(X2), m.transform(X)]
+            names = list(m.get_feature_names_out())
+        except Exception as e:
+            ctx.violation("C11/history/raised/%s" % type(e).__name__, "%s: %s after a refit" % (
+                type(e).__name__, e), cfg=cfg)
+            return
+        ctx.hit("history.steps")
+        exps = [ref.transform(X), ref.transform(X2), ref.transform(X)]
+        for k, (g, e) in enumerate(zip(outs, exps)):
+            if g.shape != e.shape or not numpy.allclose(g, e, rtol=1e-12, atol=1e-15):
+                ctx.violation("C11/history/values-differ", "transform #%d after step %d differs from "
+                              "PolynomialFeatures (shape %r vs %r)" % (k, step, g.shape, e.shape), cfg=cfg)
+                break
+        if m.n_output_features_ != ref.powers_.shape[0]:
+            ctx.violation("C11/history/n_output_features", "n_output_features_=%r, expected %d" % (
+                m.n_output_features_, ref.powers_.shape[0]), cfg=cfg)
+        E = parse_names(names, ["x%d" % i for i in range(n)])
+        if len(names) != ref.powers_.shape[0] or E is None or not numpy.array_equal(E, ref.powers_):
+            ctx.violation("C11/history/names", "feature names after step %d do not name the monomials" % step,
+                          cfg=cfg, names=names[:6])
+    if len(hist) >= 3 and len({h["n_features"] for h in hist}) >= 2:
+        ctx.nontriv("history", hist)
+    ctx.cls("history")
+
+
 def run_case(case, ctx):
+    if case["gen"] == "history":
+        return run_history(case, ctx)
     from sklearn.preprocessing import PolynomialFeatures
     import mlinsights.mlmodel.extended_features as ef
     from mlinsights.mlmodel import ExtendedFeatures
